@@ -401,8 +401,17 @@ def r6(cx, chk, cfg, F):
         v = g[0][0][1]
         shifts = set(_IDS.sub("", fmt_val(t)) for t in subterms(v) if t[0] == "bin" and t[1] == "Shr")
         inc = st[0]["val"]
-        incs = set(_IDS.sub("", fmt_val(t[3])) for t in subterms(inc) if t[0] == "bin" and t[1] == "Shl")
-        vs = set(_IDS.sub("", fmt_val(t[3])) for t in subterms(v) if t[0] == "bin" and t[1] == "Shr")
+        # the increment is `1 << s`; the tested nibble is `(byte >> s') & 0x0f`: s and s' must be the same expression
+        # (only these two shifts count - the shift distance itself may be written with a shift, e.g. `(i & 1) << 2`)
+        incs = set(_IDS.sub("", fmt_val(t[3])) for t in subterms(inc) if t[0] == "bin" and t[1] == "Shl" and absint.const_int(t[2]) == 1)
+        vs = set()
+        for t in subterms(v):
+            if t[0] == "bin" and t[1] == "BitAnd" and 15 in (absint.const_int(t[2]), absint.const_int(t[3])):
+                sh = t[2] if absint.const_int(t[3]) == 15 else t[3]
+                while isinstance(sh, tuple) and sh[0] == "cast":
+                    sh = sh[3]
+                if isinstance(sh, tuple) and sh[0] == "bin" and sh[1] == "Shr":
+                    vs.add(_IDS.sub("", fmt_val(sh[3])))
         if not (incs and incs == vs):
             bad = "the nibble that is tested (shift %s) is not the nibble that is incremented (shift %s)" % (sorted(vs), sorted(incs))
         else:
